@@ -178,7 +178,14 @@ impl<'de, 'c, 'a> DeserializeSeed<'de> for Capture<'c, 'a> {
 				if any {
 					d.deserialize_any(v)
 				} else {
-					d.deserialize_seq(v)
+					// tuples, arrays `[T; N]`, tuple structs and Vec are all sequence targets; which one is
+					// used is a function of the other (tape-drawn) options so that old tapes keep their meaning
+					let c = &self.ctx.cfg;
+					match (c.decimal_hint + c.duration_mode + c.enum_index as u8) % 4 {
+						0 => d.deserialize_tuple(1, v),
+						1 => d.deserialize_tuple_struct("T", 2, v),
+						_ => d.deserialize_seq(v),
+					}
 				}
 			}
 			Kind::Map => {
